@@ -42,10 +42,11 @@ Fixpoint remove1 (d : Z) (l : list Z) : list Z :=
 
 (* the event thread's timeout computation: remaining ms to the first deadline, plus the 1 ms
    the code adds (timeout_ms = sec*1000 + usec/1000 + 1); None = wait without timeout *)
+(* ... and the result is clamped to INT_MAX ms because the backends take an int *)
 Definition wait_until (now : Z) (l : list Z) : option Z :=
   match min_dl l with
   | None => None
-  | Some m => Some (Z.max now m + 1)
+  | Some m => Some (Z.min (Z.max now m + 1) (now + 2147483647))
   end.
 
 Definition estep (fixed : bool) (s : est) (e : eev) : option est :=
